@@ -54,6 +54,8 @@ def summarised_for(eng: Any, s: ast.For, items: list, st: State, ctx: Ctx, spec:
                     for lab, g in post.items():
                         eng.oblige(st1, f"loop@L{s.lineno}.iter{j}.{lab}", "invariant", g, s)
                     for names, cond in rs.items():
+                        if isinstance(names, tuple) and names and names[0] == "?":
+                            continue      # "may raise": no claim on normal paths
                         nm = names if isinstance(names, str) else "|".join(names)
                         eng.oblige(st1, f"loop@L{s.lineno}.iter{j}.no-{nm}-on-normal-path", "raises", Not(And(cond)), s)
                 elif out[0] == "raise":
@@ -61,9 +63,8 @@ def summarised_for(eng: Any, s: ast.For, items: list, st: State, ctx: Ctx, spec:
                     matched = None
                     for names, cond in rs.items():
                         names_t = names if isinstance(names, tuple) else (names,)
-                        if any(exc.cls == n or exc_is_a(exc.cls, n) for n in names_t):
-                            matched = And(cond)
-                            break
+                        if any(exc.cls == n or exc_is_a(exc.cls, n) for n in names_t if n != "?"):
+                            matched = And(cond) if matched is None else V.Or(matched, And(cond))
                     eng.oblige(st1, f"loop@L{s.lineno}.iter{j}.{exc.cls}-only-when-declared", "raises",
                                matched if matched is not None else False, s)
                     # (the raising path itself is continued from the summary below, so that there is one of it)
@@ -80,8 +81,12 @@ def summarised_for(eng: Any, s: ast.For, items: list, st: State, ctx: Ctx, spec:
         conds = []
         for names, cond in rs.items():
             names_t = names if isinstance(names, tuple) else (names,)
+            may = names_t[0] == "?"
+            if may:
+                names_t = names_t[1:]
             c = And(cond)
-            conds.append(c)
+            if not may:
+                conds.append(c)
             if c is False:
                 continue
             if eng.feasible(st0, c if c is not True else True):
